@@ -106,12 +106,13 @@ def walk(t, obj, path):
 
 
 def base_address(buf):
+    """address of the first byte of the native storage (ndarray or bytearray)"""
     return np.frombuffer(buf.buffer, dtype="int8").ctypes.data
 
 
-def place_object(t, v, salt=0):
+def place_object(t, v, salt=0, kind="np"):
     """object at a non-zero, slot-aligned offset of a traced buffer that has already grown (relocated)"""
-    b = place.traced("np", 24, default_alignment=8, grow_step=None)
+    b = place.traced(kind, 24, default_alignment=8, grow_step=None)
     a = b.allocate(24)
     b.update_from_buffer(a, place.poison(24, salt))
     arg = xt.to_py(t, v) if xt.py_expressible(t, v) else xt.to_nd(t, v, "nd")
